@@ -131,8 +131,12 @@ def main(argv=None):
         if a.selfcheck:
             from . import props, variants
 
+            from .rules import generic
+
             P = Program()
-            print(f"sa self-check: {P.stats()} ; {len(props.PROPS)} properties claimed ; {len(variants.VARIANTS)} variants")
+            pos = generic.selfcheck_positive()
+            print(f"sa self-check: {P.stats()} ; {len(props.PROPS)} properties claimed ; {len(variants.VARIANTS)} variants ; "
+                  f"positive example fired {pos}")
             return 0
         if a.replay:
             return replay(a.replay)
